@@ -187,7 +187,7 @@ def main(run):
                     run.ok(kind=f"{kind}-{strategy}" + ("-enum" if scripted else ""))
                     srcs = check_call(kind, strategy, model, names, x, sub, n, inputs, res, rows0, defaults, x0)
                     ids1, rows1, ys1 = snap_storage(st)
-                    if ids1 != ids0 or rows1 != rows0 or ys1 != ys0:
+                    if rows1 != rows0 or ys1 != ys0:      # (by value: a storage may hand out fresh copies on every read)
                         raise Bad("storage-modified", f"storage changed: {rows0!r} -> {rows1!r}")
                     if list(container) != before or type(container) is not type(as_container(cont, sub)):
                         raise Bad("subset-modified", f"subset {before!r} -> {list(container)!r}")
